@@ -268,6 +268,73 @@ def validate_trace(tlc_trace_path, tag):
     return res
 
 
+def _split_executions(path):
+    """-> (header lines before the first cfg (none expected), list of executions, each a list of lines starting with its cfg line)"""
+    execs, cur = [], None
+    with open(path) as f:
+        for line in f:
+            if line.startswith('{"e":"cfg"'):
+                cur = [line]
+                execs.append(cur)
+            elif cur is not None:
+                cur.append(line)
+    return execs
+
+
+def validate_robust(path, tag, validator, max_runs=40):
+    """validate a trace file; if TLC fails while evaluating it (an execution so far from anything the specification or the
+    monitors expect that an operator is applied outside its domain), bisect: the remaining executions are still judged,
+    the uninterpretable ones are listed in res['uninterpretable'] (line numbers refer to the original file)"""
+    res = validator(path, tag)
+    if not res.get("error") or "TIMEOUT" in (res.get("error") or "")[-200:]:
+        res["uninterpretable"] = []
+        return res
+    execs = _split_executions(path)
+    if len(execs) <= 1:
+        res["uninterpretable"] = [1] if execs else []
+        return res
+    starts, n = [], 1
+    for ex in execs:
+        starts.append(n)
+        n += len(ex)
+    out = {"accepted": True, "rejected": [], "findings": [], "error": None, "lines": 0, "secs": res.get("secs", 0), "uninterpretable": []}
+    runs = [0]
+
+    def go(lo, hi):
+        if runs[0] >= max_runs:
+            out["uninterpretable"].append(starts[lo])
+            return
+        runs[0] += 1
+        part = "%s.part%d_%d" % (path, lo, hi)
+        with open(part, "w") as f:
+            for ex in execs[lo:hi]:
+                f.writelines(ex)
+        r = validator(part, "%s.p%d_%d" % (tag, lo, hi))
+        os.remove(part)
+        out["secs"] += r.get("secs", 0)
+        if r.get("error"):
+            if hi - lo == 1:
+                out["uninterpretable"].append(starts[lo])
+                out["accepted"] = False
+                return
+            mid = (lo + hi) // 2
+            go(lo, mid)
+            go(mid, hi)
+            return
+        off = starts[lo] - 1
+        out["accepted"] = out["accepted"] and r.get("accepted", True)
+        for rj in r.get("rejected", []):
+            out["rejected"].append(dict(rj, line=rj["line"] + off))
+        for (p_, ln, why) in r.get("findings", []):
+            if not any(f[0] == p_ for f in out["findings"]):
+                out["findings"].append((p_, ln + off, why))
+    mid = len(execs) // 2
+    go(0, mid)
+    go(mid, len(execs))
+    out["secs"] = round(out["secs"], 1)
+    return out
+
+
 def validate_cross(merged_trace_path, tag):
     """cross-instance monitors (lanes / copies, replica, save-load) over a merged trace"""
     rc, out, secs = run_tlc("CrossTrace.tla", "CrossTrace.cfg", os.path.join(WORK, "meta", tag), env={"TRACE": merged_trace_path},
